@@ -2,13 +2,17 @@
 //!
 //! input  = (cfg files perms dfile segs queries)
 //!   cfg     = (chars cg max_size? max_seq? threads)
-//!   files   = list of (final_newline lines); line = (raw words); word = (parts clusters)
-//!             parts: byte strings of the regex matches of `split_words`; clusters: (bytes alpha punct)
-//!             of `vh::split_clusters(word, true)`, all computed on normalize(clean(raw)) by the real crate
+//!   files   = list of (final_newline lines); line = (raw words); word = (parts clusters offs)
+//!             parts: byte strings of the regex matches of `split_words`, offs their byte offsets;
+//!             clusters: (bytes alpha punct) of `vh::split_clusters(word, true)`, all computed on
+//!             normalize(clean(raw)) by the real crate.  Since the UCD extension the model computes all of
+//!             this from `raw` itself (C20_Words.v); the words are a cross-check inside `agree`.
 //!   perms   = (arrival_picks heap_picks)       arbitrary orders for the model (the code's are unobservable)
 //!   dfile   = bytes of a dictionary file for `load`
 //!   segs    = grapheme segmentation (byte strings) of every candidate key of dfile
 //!   queries = list of (raw norm nq qclusters)   nq = normalize(raw, NFKC), qclusters its graphemes
+//!   probes  = optional 7th field: list of (text words): `words` as above but computed on `text` itself
+//!             (no clean, no normalisation) — the class probes that sweep all scalar values
 //! output = (creates reload loaded answers), see C20_Model.v
 use std::collections::HashMap;
 use std::path::PathBuf;
@@ -28,6 +32,7 @@ struct Raw {
     hp: Vec<usize>,
     dfile: String,
     queries: Vec<(String, bool)>,
+    probes: Vec<String>,
 }
 
 struct C20 {
@@ -82,8 +87,18 @@ impl C20 {
             return v.clone();
         }
         let line = normalize(&clean(raw, true), Normalization::NFKC, true);
+        let v = self.words_oracle(&line);
+        if self.line_cache.len() < 50_000 {
+            self.line_cache.insert(raw.to_string(), v.clone());
+        }
+        v
+    }
+
+    /// `split_words(line)`: per word the regex matches and their byte offsets, the clusters and their classes
+    fn words_oracle(&mut self, line: &str) -> Val {
         let mut words = vec![];
-        for (word, parts) in split_words(&line) {
+        for (word, parts) in split_words(line) {
+            let offs = Val::L(parts.iter().flatten().map(|(_, o)| Val::u(*o)).collect());
             let parts = Val::L(
                 parts
                     .map(|p| p.into_iter().map(|(s, _)| bytes(s)).collect())
@@ -98,13 +113,9 @@ impl C20 {
                     })
                     .collect(),
             );
-            words.push(Val::L(vec![parts, cls]));
+            words.push(Val::L(vec![parts, cls, offs]));
         }
-        let v = Val::L(words);
-        if self.line_cache.len() < 50_000 {
-            self.line_cache.insert(raw.to_string(), v.clone());
-        }
-        v
+        Val::L(words)
     }
 
     fn to_val(&mut self, r: &Raw) -> Val {
@@ -149,19 +160,17 @@ impl C20 {
                 ])
             })
             .collect();
-        Val::L(vec![
-            cfg,
-            Val::L(files),
-            perms,
-            Val::bytes(r.dfile.as_bytes()),
-            Val::L(segs),
-            Val::L(queries),
-        ])
+        let mut fields = vec![cfg, Val::L(files), perms, Val::bytes(r.dfile.as_bytes()), Val::L(segs), Val::L(queries)];
+        if !r.probes.is_empty() {
+            let ps: Vec<Val> = r.probes.iter().map(|p| Val::L(vec![Val::str(p), self.words_oracle(p)])).collect();
+            fields.push(Val::L(ps));
+        }
+        Val::L(fields)
     }
 
     fn parse(&self, input: &Val) -> Option<Raw> {
         let l = input.as_l()?;
-        if l.len() != 6 {
+        if l.len() != 6 && l.len() != 7 {
             return None;
         }
         let cfg = l[0].as_l()?;
@@ -213,7 +222,13 @@ impl C20 {
         for q in l[5].as_l()? {
             queries.push((q.nth(0)?.to_string_lossy()?, q.nth(1)?.as_bool()?));
         }
-        Some(Raw { chars, cg, max_size, max_seq, threads, files, arr, hp, dfile, queries })
+        let mut probes = vec![];
+        if let Some(ps) = l.get(6) {
+            for p in ps.as_l()? {
+                probes.push(p.nth(0)?.to_string_lossy()?);
+            }
+        }
+        Some(Raw { chars, cg, max_size, max_seq, threads, files, arr, hp, dfile, queries, probes })
     }
 
     fn write_files(&self, r: &Raw) -> Vec<PathBuf> {
@@ -260,6 +275,42 @@ const QUERIES: &[&str] = &[
     "aé", "abcd", "c", "cba", "🇩🇪🇫", "क्", "\u{1100}\u{1161}",
 ];
 const FREQS: &[usize] = &[0, 1, 1, 2, 2, 3, 3, 5, 10, 1000, 1 << 40];
+
+/// units for the class probes: letters, digits of several scripts (Nd is \w but not in the word class),
+/// other numbers, marks, connector punctuation, join controls, punctuation of every subcategory, symbols,
+/// code points whose class differs between Unicode 16 (regex-syntax) and 17 (std)
+const PUNITS: &[&str] = &[
+    "a", "b", "Z", "é", "e\u{301}", "\u{301}", "\u{20dd}", "\u{93e}", "1", "2", "٣", "७", "２", "²", "½", "Ⅳ", "ↂ", "_",
+    "‿", "﹏", "＿", "\u{200c}", "\u{200d}", "\u{200b}", "-", "–", "(", ")", "«", "»", "!", "¡", "·", "'", "’", "<",
+    "+", "€", "^", "`", "中", "ｱ", "ᄀ", "😀", "\u{345}", "ª", "ʰ", "\u{16d40}", "\u{11b60}", "\u{1e6c0}", "\u{a7ce}",
+    "\u{10940}", "\u{1c89}", "\u{a7cb}", "\u{2ffc}", "\u{1e5d0}",
+];
+
+/// The class probe around code point `c`: `c`, `ac`, `ca` (is c in the word class / in \w; its own classes).
+fn cls_probe(c: char) -> String {
+    format!("{c} a{c} {c}a")
+}
+
+fn gen_probe(rng: &mut Rng) -> String {
+    if rng.chance(1, 2) {
+        let c = loop {
+            if let Some(c) = char::from_u32(rng.below(0x110000) as u32) {
+                break c;
+            }
+        };
+        cls_probe(c)
+    } else {
+        let n = rng.range(1, 7);
+        let mut s = String::new();
+        for _ in 0..n {
+            if rng.chance(1, 8) {
+                s.push(' ');
+            }
+            s.push_str(*rng.pick(PUNITS));
+        }
+        s
+    }
+}
 
 fn pick_word(rng: &mut Rng, vocab: usize) -> &'static str {
     // skewed towards the first entries so that counts collide
@@ -416,7 +467,8 @@ fn gen_raw(rng: &mut Rng, tier: Tier) -> Raw {
     let queries = (0..nq)
         .map(|_| (rng.pick(QUERIES).to_string(), rng.chance(1, 2)))
         .collect();
-    Raw { chars, cg, max_size, max_seq, threads, files, arr, hp, dfile, queries }
+    let probes = if rng.chance(1, 8) { (0..rng.range(4, 33)).map(|_| gen_probe(rng)).collect() } else { vec![] };
+    Raw { chars, cg, max_size, max_seq, threads, files, arr, hp, dfile, queries, probes }
 }
 
 impl Prop for C20 {
@@ -589,6 +641,9 @@ impl Prop for C20 {
         if r.threads.iter().any(|t| *t >= 2) {
             tags.push("mt".into());
         }
+        if !r.probes.is_empty() {
+            tags.push("clsprobe".into());
+        }
         Some((out, tags))
     }
 
@@ -665,6 +720,7 @@ impl Prop for C20 {
                             hp: vec![k % 5, k % 3, 1],
                             dfile: dfiles[k % dfiles.len()].clone(),
                             queries: queries.clone(),
+                            probes: vec![],
                         };
                         out.push(self.to_val(&r));
                         k += 1;
@@ -672,11 +728,55 @@ impl Prop for C20 {
                 }
             }
         }
+        // the class sweep: the probes around ALL scalar values, 64 per case, nothing else in the case
+        let mut c = 0u32;
+        while c <= 0x10FFFF {
+            let probes: Vec<String> = (c..c + 64).filter_map(char::from_u32).map(cls_probe).collect();
+            if !probes.is_empty() {
+                let r = Raw {
+                    chars: false,
+                    cg: 1,
+                    max_size: None,
+                    max_seq: None,
+                    threads: vec![],
+                    files: vec![],
+                    arr: vec![],
+                    hp: vec![],
+                    dfile: String::new(),
+                    queries: vec![],
+                    probes,
+                };
+                out.push(self.to_val(&r));
+            }
+            c += 64;
+        }
         out
     }
 
     fn selfcheck(&mut self) -> Vec<String> {
-        ws_table_selfcheck()
+        let mut errs = ws_table_selfcheck();
+        // the model's tables must be the translation of the installed sources
+        let md = env!("CARGO_MANIFEST_DIR");
+        for rel in ["..", "../.."] {
+            let root = std::path::Path::new(md).join(rel);
+            let p = root.join("tools/gen_ucd.py");
+            if p.exists() {
+                match std::process::Command::new("python3").arg(&p).arg("--check").output() {
+                    Ok(o) if o.status.success() => {}
+                    Ok(o) => errs.push(format!("tools/gen_ucd.py --check: {}", String::from_utf8_lossy(&o.stdout).trim())),
+                    Err(e) => errs.push(format!("tools/gen_ucd.py --check could not run: {e}")),
+                }
+                let (x, y, z) = char::UNICODE_VERSION;
+                let want = format!("Definition std_unicode_version : N * N * N := ({x}, {y}, {z})%N.");
+                match std::fs::read_to_string(root.join("coq/theories/UCD_Table.v")) {
+                    Ok(t) if t.contains(&want) => {}
+                    Ok(_) => errs.push(format!("UCD_Table.v is not of the Unicode version {x}.{y}.{z} of the running std")),
+                    Err(e) => errs.push(format!("UCD_Table.v unreadable: {e}")),
+                }
+                break;
+            }
+        }
+        errs
     }
 }
 
